@@ -119,3 +119,62 @@ package document
 //@   ensures out != nil ==> err == nil && out.SecurityInfos != nil && out.RawData === data
 //@   ensures fresh(out)
 //@   assigns nothing
+
+// ---------------------------------------------------------------- C19: parsed views come from the file's own bytes
+// Outer tag: the root template of an LDS file is its first top-level data object and must carry the file's tag.
+//@ func lookupRootNode
+//@   props C19 C12
+//@   requires nodes != nil
+//@   ensures result != nil
+//@   ensures "first-top-level-object-with-the-expected-tag": nodeValid(result) == (topCount(nodes.src) >= 1 && firstTag(nodes.src) == tag)
+//@   ensures nodeValid(result) ==> nodeTag(result) == tag
+//@   assigns nothing
+//@   safety all
+
+// DG1: private copy of the bytes, outer tag 61, MRZ = value of 5F1F decoded by mrz.MrzDecode
+//@ func NewDG1
+//@   props C19 C12
+//@   ensures "absent-file": len(data) < 1 ==> dg1 == nil && err == nil
+//@   ensures "raw-bytes-are-a-private-copy": dg1 != nil ==> dg1.RawData === data && fresh(dg1.RawData) && fresh(dg1)
+//@   ensures "outer-tag-is-the-data-group-tag": dg1 != nil ==> topCount(data) >= 1 && firstTag(data) == 97
+//@   ensures "object-or-error": len(data) >= 1 ==> (dg1 != nil) == (err == nil)
+//@   assigns nothing
+//@   safety all
+
+//@ func imageByteArrToDg2ImageArr
+//@   props C19 C12
+//@   ensures "one-entry-per-image": len(result) == len(images) && fresh(result)
+//@   loop 1 invariant 0 <= i && i <= len(images) && len(out) == i && fresh(out)
+//@   loop 1 decreases len(images) - i
+//@   assigns nothing
+//@   trustedframe
+//@   safety all
+
+// ISO/IEC 39794-5 parsing (encoding/asn1 based) is outside the modelled subset. Trusted boundary.
+//@ func processBHT
+//@   props C19 C12
+//@   requires node != nil
+//@   ensures (result1 == nil) == (result0 != nil)
+//@   ensures fresh(result0)
+//@   assigns nothing
+//@   safety all
+
+// DG2: outer tag 75; one BiometricInfoTemplate per advertised instance (1..9), each exposing exactly the encoding its
+// own bytes carry (5F2E: ISO/IEC 19794-5, else 7F2E: ISO/IEC 39794-5), and the images of all templates in file order.
+// processBIT has no contract of its own: it is verified inline as part of every NewDG2 loop iteration. The invariant
+// speaks about the template appended in the current round (each round is arbitrary, so this covers every template;
+// appended elements are never written again).
+//@ func NewDG2
+//@   props C19 C12
+//@   ensures "absent-file": len(data) < 1 ==> result0 == nil && result1 == nil
+//@   ensures "raw-bytes-are-a-private-copy": result0 != nil ==> result0.RawData === data && fresh(result0.RawData) && fresh(result0)
+//@   ensures "outer-tag-is-the-data-group-tag": result0 != nil ==> topCount(data) >= 1 && firstTag(data) == 117
+//@   ensures "one-view-per-template": result0 != nil ==> 1 <= len(result0.BITs) && len(result0.BITs) <= 9
+//@   ensures "last-template-exposes-exactly-one-encoding": result0 != nil ==>
+//@        ((result0.BITs[len(result0.BITs) - 1].BDB.Iso19794 != nil) != (result0.BITs[len(result0.BITs) - 1].BDB.Iso39794 != nil))
+//@   loop 1 invariant out != nil && 1 <= occur && occur <= numInstances + 1 && numInstances <= 9 && len(out.BITs) == occur - 1
+//@   loop 1 invariant "template-appended-in-each-round-exposes-exactly-one-encoding": occur >= 2 ==>
+//@        ((out.BITs[occur - 2].BDB.Iso19794 != nil) != (out.BITs[occur - 2].BDB.Iso39794 != nil))
+//@   loop 1 invariant out.RawData === data && fresh(out.RawData) && fresh(out)
+//@   loop 1 decreases numInstances + 1 - occur
+//@   safety all
